@@ -10,6 +10,7 @@ pub mod c05;
 pub mod c06;
 pub mod c06_catalogue;
 pub mod c06_dbgnorm;
+pub mod c07;
 pub mod c08;
 pub mod c09;
 pub mod c10;
@@ -46,6 +47,8 @@ pub mod robust_worker;
 pub mod sf;
 pub mod sveq;
 
+#[path = "../lsp_client.rs"]
+pub mod lsp_client;
 #[path = "../e2.rs"]
 pub mod e2;
 #[path = "../gen_df.rs"]
@@ -79,6 +82,7 @@ pub fn registry() -> Vec<(&'static str, CheckFn)> {
         ("C04", c04::run as CheckFn),
         ("C05", c05::run as CheckFn),
         ("C06", c06::run as CheckFn),
+        ("C07", c07::run as CheckFn),
         ("C08", c08::run as CheckFn),
         ("C09", c09::run as CheckFn),
         ("C10", c10::run as CheckFn),
@@ -125,6 +129,7 @@ pub fn replay(path: &str) -> i32 {
         "C03" => c03::replay(&doc),
         "C04" => c04::replay(&doc),
         "C06" => c06::replay(&doc),
+        "C07" => c07::replay(&doc),
         "C08" => c08::replay(&doc),
         "C09" => c09::replay(&doc),
         "C10" => c10::replay(&doc),
